@@ -365,9 +365,6 @@ func c20HookList(o *Out, kind string, es []c20HE) {
 		hooks, err = middleware.HooksFromHookConfigs(cfgs)
 	}()
 	outc := c20Outcome(err, middleware.ErrDriverDoesNotExist)
-	if err == nil && len(hooks) != len(es) {
-		outc = 2 // "built" with fewer hooks than configured is not a build of the configuration
-	}
 	var ji []interface{}
 	for _, e := range es {
 		ji = append(ji, e)
